@@ -12,6 +12,11 @@ use zvharness::*;
 
 fn judge(x: &str, with_check_cmd: bool, st: &mut Stats) -> Option<(String, String)> {
     let model = rp::parse(x);
+    // model validation: the iterative (possessive) form of the grammar used for long inputs agrees with the recursive matcher
+    if x.len() <= rp::LONG_INPUT {
+        st.inc("model_forms_compared");
+        if rp::parse_with(x, true) != model { machinery_error(&format!("R-PEP: possessive and backtracking grammar forms disagree on {x:?}")); }
+    }
     let got = match catch(|| PEP440::from_str(x).map(|v| (v.to_string(), v))) {
         Ok(g) => g,
         Err(p) => return Some((format!("panic@{}", p.file()), format!("panic {} at {}", p.message, p.location))),
@@ -182,9 +187,13 @@ fn main() {
     // plus the dense grid (numpool), plain and with one leading zero
     let grid: Vec<String> = numpool::grid().into_iter().flat_map(|n| [n.clone(), format!("0{n}")]).collect();
     let nums: Vec<&str> = nums.iter().copied().chain(grid.iter().map(|s| s.as_str())).collect();
-    let mut sd = Stats::default();
+    let sd = Stats::default();
     // long inputs (a parser that looks at a bounded prefix, or echoes a shortened copy): lengths around 2^8, 2^10, 2^12, 2^16
-    for n in [120usize, 126, 127, 128, 250, 254, 255, 256, 257, 300, 1023, 1024, 1025, 4096] {
+    // sizes: the neighbourhood of every power of two up to 2^22 (thorough 2^24) and of every power of ten up to 10^6
+    let mut lens: Vec<usize> = vec![120, 126, 250, 254, 300];
+    lens.extend(numpool::sizes(if ctx.quick() { 22 } else { 24 }, 6));
+    let s_long = lens.par_iter().map(|&n| {
+        let mut sd = Stats::default();
         for x in [format!("1.0+{}", "a".repeat(n)), format!("1.0+{}!", "a".repeat(n)), format!("1.0+{}.B-c_01", "a".repeat(n)), format!("1{}", ".2".repeat(n / 2)), format!("1{}.", ".2".repeat(n / 2)),
             format!("1.0.dev{}7", "0".repeat(n)), format!("1.0a{}1.post2", "0".repeat(n)), format!("{}1!2.0", "0".repeat(n)), format!("1.0+{}", "a.0".repeat(n / 3)), format!("1.0+{}..b", "a".repeat(n)),
             format!("1.0rc1{}", "-".repeat(n)), format!("v{}", "1.".repeat(n / 2) + "0")] {
@@ -192,7 +201,9 @@ fn main() {
             let v = judge(&x, n <= 4096, &mut sd);
             report(&ctx, &x, "long", v, &mut sd);
         }
-    }
+        sd
+    }).reduce(Stats::default, Stats::merge);
+    let mut sd = sd.merge(s_long);
     for t in templates {
         for n in &nums {
             let x = t.replace("{N}", n);
